@@ -1,6 +1,7 @@
 """Native (under /venv/bin/python) library for the bounded stand-ins: corpus, independent oracles, target enumeration,
 parallel driver.  Everything here is labelled *bounded* in evidence and never counted as proved."""
 import ast
+import zlib
 import glob
 import io
 import multiprocessing
@@ -139,7 +140,7 @@ def _worker(args):
         import fst
         if payload.get('norm', True):
             fst.FST.set_options(norm=True)
-        random.seed(hash((payload.get('seed', 0), name)) & 0xffffffff)
+        random.seed(zlib.crc32(f'{payload.get("seed", 0)}:{name}'.encode()))
         return name, getattr(m, fn)(name, src, payload)
     except Exception as e:
         return name, {'evaluations': 0, 'distinct': [], 'failures': [], 'samples': [], 'counts': {},
